@@ -183,6 +183,13 @@ func Delta(spec *simrt.Spec, o *Out) FSDelta {
 	for _, n := range spec.FS {
 		before[n.Path] = n
 	}
+	for p, n := range before {
+		if n.Kind == "h" { // a hard link reads as the file it names
+			if t, ok := before[n.Target]; ok && t.Kind == "f" {
+				before[p] = simrt.Node{Path: p, Kind: "f", Data: t.Data}
+			}
+		}
+	}
 	after := map[string]simrt.Node{}
 	for _, n := range o.Res.FS {
 		after[n.Path] = n
